@@ -44,6 +44,8 @@ def rules(ctx):
     C08.c082(ctx)      # a file leaves sst/ only when its last reference is released
     C03.c031_store(ctx)
     C03.c031_leaves(ctx)
+    from . import C11
+    C11.c114(ctx)      # the pruning stage branches on `timestamp <= snapshot` after every step: a write that lands under a live scan is screened
     c074(ctx)
 
 
